@@ -3,7 +3,7 @@
    with the aggregate the C07 models compute from the sequential reference keys. *)
 From Coq Require Import List NArith ZArith Bool Arith String.
 From RareV Require Import Base.Hex Base.Res Base.Num Model.Lines Model.Batch Model.Pipeline Model.Ctx Model.Extract
-  Model.Agg Model.CsvFile Model.Exit Corr.Run Corr.PipeCase.
+  Model.Agg Model.CsvFile Model.Exit Proofs.ReduceOrder Corr.Run Corr.PipeCase.
 Import ListNotations.
 
 (* aggregator behind the command: 0 histogram (MatchCounter), 1 table/heatmap/spark (TableAggregator),
@@ -50,9 +50,7 @@ Definition all_same (rs : list (Z * bytes)) : bool :=
    group expressions and accumulator names as header and one row per group: its key fields, then its
    accumulators. Row order is the group-key sort (C13), so rows are compared as a set of equal size. *)
 Definition bad_type : bytes := of_str "<BAD-TYPE>".
-Definition reduce_def : adef expr :=
-  mkAD [EMatch 1; EMatch 2]
-       [(of_str "total", ESumi ECur (EMatch 3), of_str "0"); (of_str "n", ESumi ECur (ELit (of_str "1")), of_str "0")].
+Definition reduce_def : adef expr := ReduceOrder.reduce_def.   (* the definition of C03_reduce_schedule_independent *)
 Fixpoint split0 (fuel : nat) (st : option bytes) : list bytes :=
   match fuel, st with
   | Datatypes.O, _ => []
